@@ -210,6 +210,9 @@ pub fn gen_rw_run(check: &str, seed: u64, tier: Tier) -> Run {
     run.set("persistent_rules", Rng::stream(seed, "persistent-rules").chance(1, 4) as i64);
     // ... and, in two thirds of those runs, to another e-graph first (same class ids / shifted class ids)
     run.set("decoy_first", [0, 1, 2][Rng::stream(seed, "decoy-first").below(3)]);
+    // (own stream) a companion e-graph in the same thread: same insertions and unions, the same Rewrite
+    // values applied to it (all but the first) right before / after every rewriting step of the run
+    run.set("companion", Rng::stream(seed, "companion").chance(1, 7) as i64);
     run
 }
 
@@ -333,14 +336,31 @@ fn all_rule_indices(run: &Run) -> Vec<i64> {
 }
 
 /// executes one op of an LA trace; returns whether apply_rewrites reported a change
+/// companion e-graph of an rw run: the step's Rewrite values (all but the first) applied once
+fn companion_rewrite(s: &mut Sess<LA, SimAn>, rules: &[Rewrite<LA, SimAn>], run: &Run) {
+    if let Some(mut c) = s.companion.take() {
+        if c.total_number_of_nodes() <= effective_budget(run) {
+            let r = apply_rewrites(&mut c, if rules.len() > 1 { &rules[1..] } else { rules });
+            s.log(&format!("companion rewrite -> {r} {}", c.total_number_of_nodes()));
+        }
+        s.companion = Some(c);
+    }
+}
+
 pub fn exec_la_op(s: &mut Sess<LA, SimAn>, op: &Op, run: &Run, pb: &Rc<RefCell<u64>>) -> Option<bool> {
+    if run.get("companion") != 0 && s.companion.is_none() {
+        s.enable_companion();
+        s.companion_same_unions = true;
+    }
     match op.name.as_str() {
         "add" => {
+            s.companion_op(op);
             s.add_term(&op.t[0], false);
             None
         }
         "union" => {
             s.union_terms(&op.t[0], &op.t[1], op.int(0) != 0, false);
+            s.companion_op(op);
             None
         }
         "probe" => {
@@ -365,6 +385,9 @@ pub fn exec_la_op(s: &mut Sess<LA, SimAn>, op: &Op, run: &Run, pb: &Rc<RefCell<u
             } else {
                 make_rules(run, &op.i[1..], &mut s.nm, pb.clone())
             };
+            if s.cur_op % 2 == 0 {
+                companion_rewrite(s, &rules, run);
+            }
             let eg = std::mem::replace(&mut s.eg, new_la_egraph(run));
             let an = SimAn { p: run.get("p").clamp(2, 11) as u32, modify: run.get("modify") != 0 };
             let mut runner: Runner<LA, SimAn, (), String> = Runner::new(an)
@@ -375,6 +398,9 @@ pub fn exec_la_op(s: &mut Sess<LA, SimAn>, op: &Op, run: &Run, pb: &Rc<RefCell<u
             // (resume_unwind keeps the recorded panic information of the original panic)
             let r = std::panic::catch_unwind(std::panic::AssertUnwindSafe(|| runner.run(&rules)));
             s.eg = std::mem::replace(&mut runner.egraph, new_la_egraph(run));
+            if r.is_ok() && s.cur_op % 2 == 1 {
+                companion_rewrite(s, &rules, run);
+            }
             if persistent {
                 PERSISTENT_RULES.with(|c| *c.borrow_mut() = Some(rules));
             }
@@ -398,11 +424,17 @@ pub fn exec_la_op(s: &mut Sess<LA, SimAn>, op: &Op, run: &Run, pb: &Rc<RefCell<u
             } else {
                 make_rules(run, &op.i, &mut s.nm, pb.clone())
             };
+            if s.cur_op % 2 == 0 {
+                companion_rewrite(s, &rules, run);
+            }
             if run.get("probes") != 0 {
                 MAKE_PROBE.with(|m| m.set(run.get("probes") as u64));
             }
             let r = std::panic::catch_unwind(std::panic::AssertUnwindSafe(|| apply_rewrites(&mut s.eg, &rules)));
             MAKE_PROBE.with(|m| m.set(0));
+            if r.is_ok() && s.cur_op % 2 == 1 {
+                companion_rewrite(s, &rules, run);
+            }
             if persistent {
                 PERSISTENT_RULES.with(|c| *c.borrow_mut() = Some(rules));
             }
